@@ -1001,7 +1001,29 @@ func serdeOfCounts(cs []uint64, what string) {
 	if outp != want {
 		propFail("C13", "serde-roundtrip", "re-serialization differs: %s vs %s", outp, want)
 	}
+	// the same bytes into a WireSchema value that was USED before (it holds the counts of the
+	// previous case, larger or smaller): the result must not depend on the receiver's history
+	func() {
+		defer func() {
+			if p := recover(); p != nil {
+				propFail("C13", "deserialize-panic", "Deserialize into a used WireSchema panics on %s", hx(b))
+			}
+		}()
+		prev := wireCounts(&reusedWS)
+		if err := reusedWS.Deserialize(bytes.NewReader(b)); err != nil {
+			propFail("C13", "serde-reuse", "Deserialize into a used WireSchema (it held %d counts) fails: %v; bytes %s", len(prev), err, hx(b))
+			reusedWS = schema.WireSchema{}
+			return
+		}
+		stats["serde-reuse-cases"]++
+		if got2 := wireCounts(&reusedWS); !eqCounts(got2, cs) {
+			propFail("C13", "serde-reuse", "counts %v deserialize as %v into a WireSchema value that held %v before", cs, got2, prev)
+			reusedWS = schema.WireSchema{}
+		}
+	}()
 }
+
+var reusedWS schema.WireSchema
 
 func serdeRaw(b []byte, what string) {
 	stats["serde-raw-cases"]++
